@@ -1492,12 +1492,149 @@ def flatten_new_bases(modname, tree, inv):
 FLATTENED = {}
 
 
+# ------------------------------------------------------------------ N27 definitions moved to (or new helpers written in) another module
+
+MOVED = {}
+
+
+def _top_bindings(tree):
+    out = {}
+    for n in tree.body:
+        if isinstance(n, FUNC + (ast.ClassDef,)):
+            out[n.name] = n
+        elif isinstance(n, ast.Assign):
+            for t in n.targets:
+                if isinstance(t, ast.Name):
+                    out[t.id] = n
+        elif isinstance(n, (ast.Import, ast.ImportFrom)):
+            for a in n.names:
+                out[(a.asname or a.name).split(".")[0]] = n
+    return out
+
+
+def _import_target(mod, node):
+    """module name (key of trees) an ImportFrom of module `mod` refers to, or None"""
+    if node.level:
+        base = mod.split("/")[:-1]
+        up = node.level - 1
+        if up > len(base):
+            return None
+        base = base[:len(base) - up] if up else base
+        return "/".join(base + (node.module.split(".") if node.module else []))
+    if node.module and (node.module == "klongpy" or node.module.startswith("klongpy.")):
+        return "/".join(node.module.split(".")[1:])
+    return None
+
+
+def undo_moves(trees, inv):
+    """A definition the reviewed tree had in module M that now lives in another module X and is imported back by name, and a NEW top-level
+    helper of another module that M imports by name (or reaches as X.helper through `from . import X` of a new module X), is copied into M
+    where the import stood, with the new top-level definitions and constants of X it refers to.  Python resolves the imported name to
+    exactly that definition, so M's functions mean the same; the copy is abandoned when a copied name collides with a binding of M."""
+    if inv is None:
+        return {}
+    top = (_INV_FULL or {}).get("toplevel")
+    if top is None:
+        return {}
+    known = {m: set(v) for m, v in top.items()}
+    known_mods = set(known)
+    done = {}
+    for _round in range(3):
+        changed = False
+        for mod, tree in trees.items():
+            if mod not in known_mods:
+                continue
+            for stmt in list(tree.body):
+                if not isinstance(stmt, ast.ImportFrom):
+                    continue
+                tgt = _import_target(mod, stmt)
+                if tgt is None:
+                    continue
+                wanted = []          # (source module, definition name, alias node, via-attribute module name or None)
+                for a in stmt.names:
+                    if tgt in trees and tgt != mod and a.name != "*":
+                        xb = _top_bindings(trees[tgt])
+                        if (a.asname or a.name) == a.name and isinstance(xb.get(a.name), FUNC + (ast.ClassDef,)) and a.name not in known.get(tgt, ()):
+                            wanted.append((tgt, a.name, a, None))
+                            continue
+                    sub = (tgt + "/" if tgt else "") + a.name
+                    if sub in trees and sub not in known_mods and sub != mod:
+                        wanted.append((sub, None, a, a.asname or a.name))
+                for src_mod, dname, alias, via in wanted:
+                    x = trees[src_mod]
+                    xb = _top_bindings(x)
+                    mb = _top_bindings(tree)
+                    newx = {k: v for k, v in xb.items() if not isinstance(v, (ast.Import, ast.ImportFrom)) and k not in known.get(src_mod, ())}
+                    if via is not None:
+                        used = {n.attr for n in ast.walk(tree) if isinstance(n, ast.Attribute) and isinstance(n.value, ast.Name) and n.value.id == via}
+                        roots = [k for k in used if isinstance(newx.get(k), FUNC + (ast.ClassDef,) + (ast.Assign,))]
+                        if used - set(roots):
+                            continue          # something else of that module is used through the attribute: leave it
+                    else:
+                        roots = [dname]
+                    have = set(x_.split(":", 1)[1] for x_ in done.get(mod, ()) if x_.startswith(src_mod + ":"))
+                    take, work = [], list(roots)
+                    while work:
+                        k = work.pop()
+                        if k in take or k not in newx or k in have:
+                            continue
+                        take.append(k)
+                        for n in ast.walk(newx[k]):
+                            if isinstance(n, ast.Name) and n.id in newx and n.id not in take:
+                                work.append(n.id)
+                    clash = [k for k in take if k in mb and not (mb[k] is stmt)]
+                    if clash:
+                        continue
+                    if not take:
+                        if via is None and dname in have:          # already brought in with an earlier name of this import
+                            stmt.names = [a for a in stmt.names if a is not alias]
+                            if not stmt.names:
+                                tree.body.remove(stmt)
+                                break
+                        continue
+                    # imports of X that the copied text needs and M does not bind (same package directory only: relative imports keep their meaning)
+                    extra = []
+                    if src_mod.rsplit("/", 1)[0:-1] == mod.rsplit("/", 1)[0:-1]:
+                        need = {n.id for k in take for n in ast.walk(newx[k]) if isinstance(n, ast.Name)}
+                        for n in x.body:
+                            if isinstance(n, (ast.Import, ast.ImportFrom)) and not (isinstance(n, ast.ImportFrom) and n.module == "__future__"):
+                                keep = [a2 for a2 in n.names if (a2.asname or a2.name).split(".")[0] in need and (a2.asname or a2.name).split(".")[0] not in mb
+                                        and not (isinstance(n, ast.ImportFrom) and _import_target(src_mod, n) == mod)]
+                                if keep:
+                                    c = _copy_mod.deepcopy(n)
+                                    c.names = [_copy_mod.deepcopy(a2) for a2 in keep]
+                                    extra.append(c)
+                    order = [n for n in x.body if any(newx.get(k) is n for k in take)]
+                    copies = [_copy_mod.deepcopy(n) for n in order]
+                    at = tree.body.index(stmt)
+                    stmt.names = [a for a in stmt.names if a is not alias]
+                    tree.body[at:at + 1] = extra + copies + ([stmt] if stmt.names else [])
+                    if via is not None:
+                        for n in ast.walk(tree):
+                            for f, v in ast.iter_fields(n):
+                                if isinstance(v, ast.Attribute) and isinstance(v.value, ast.Name) and v.value.id == via and v.attr in take:
+                                    setattr(n, f, ast.copy_location(ast.Name(id=v.attr, ctx=v.ctx), v))
+                                elif isinstance(v, list):
+                                    for i, e in enumerate(v):
+                                        if isinstance(e, ast.Attribute) and isinstance(e.value, ast.Name) and e.value.id == via and e.attr in take:
+                                            v[i] = ast.copy_location(ast.Name(id=e.attr, ctx=e.ctx), e)
+                    done.setdefault(mod, []).extend(f"{src_mod}:{k}" for k in take)
+                    changed = True
+                    if stmt not in tree.body:
+                        break
+        if not changed:
+            break
+    return done
+
+
 def prepare(trees):
     """called once per repository load, before the modules are normalised.  trees: {module name: ast.Module} (or a list of trees)"""
     renames = {}
     if isinstance(trees, dict):
         FLATTENED.clear()
         inv = inventory()
+        MOVED.clear()
+        MOVED.update(undo_moves(trees, inv))
         for mod, tree in trees.items():
             k = flatten_new_bases(mod, tree, inv)
             if k:
